@@ -35,6 +35,11 @@ def gen(rng):
             osattr = rng.choice(OS_ATTRS)
             if osattr:
                 attrs.append(osattr)
+            # several system attributes on one recipe: enabled when ANY of them names this platform
+            os_more = []
+            if osattr and rng.random() < 0.35:
+                os_more = rng.sample([x for x in ("linux", "unix", "windows", "macos", "openbsd") if x != osattr], rng.choice([1, 1, 2]))
+                attrs += os_more
             priv_attr = rng.random() < 0.2
             if priv_attr:
                 attrs.append("private")
@@ -47,7 +52,7 @@ def gen(rng):
             doc_attr = {"v": doc_attr["v"].replace("NM", nm) if doc_attr["v"] else None} if doc_attr else None
             params = rng.choice([[], [], ["a"], ["a='d'"], ["*a"], ["+a"], ["a", "b='x'"], ["+a='y'"], ["$a", "*$b"], ["a=\"q\\tz\""]])
             recipes.append({"name": nm, "id": prefix + nm, "attrs": attrs, "groups": groups, "doc": doc, "doc_src": doc_src, "comment": comment, "doc_attr": doc_attr, "params": params,
-                            "enabled": osattr in (None, "linux", "unix"),
+                            "enabled": osattr is None or any(x in ("linux", "unix") for x in [osattr] + os_more),
                             "private": nm.startswith("_") or priv_attr,
                             "min": sum(1 for x in params if "=" not in x and not x.startswith("*"))})
         aliases = []
@@ -483,7 +488,7 @@ def run(report):
     report.coverage.update({
         "evaluations": stats["commands"],
         "distinct_nontrivial": len(distinct),
-        "rule": "random justfiles: public / [private] / underscore recipes, OS attributes (enabled and disabled on linux), groups, doc comments and [doc] attributes (escapes, triple quotes, suppression), parameters of every kind (exported, escaped defaults), an import, up to two submodules each possibly with a nested submodule, public and private aliases to own and to submodule recipes; --summary, --list (sorted/unsorted), JSON dump, --choose candidates, --groups, the groups / documentation / parameters displayed vs declared (root and `--list MODULE`), and for every name --show vs what `just NAME` runs; distinct = distinct file sets",
+        "rule": "random justfiles: public / [private] / underscore recipes, OS attributes (enabled and disabled on linux, single and combined), groups, doc comments and [doc] attributes (escapes, triple quotes, suppression), parameters of every kind (exported, escaped defaults), an import, up to two submodules each possibly with a nested submodule, public and private aliases to own and to submodule recipes; --summary, --list (sorted/unsorted), JSON dump, --choose candidates, --groups, the groups / documentation / parameters displayed vs declared (root and `--list MODULE`), and for every name --show vs what `just NAME` runs; distinct = distinct file sets",
         "samples": samples,
         "traces_validated_against_impl": n,
         "stats": stats,
